@@ -29,6 +29,8 @@ __all__ = ["Calibration", "absmax_scale"]
 
 
 def _updated_scale(scale, new_scale, momentum):
+    # Scales are not trained: do not keep the autograd history of the tensors they were evaluated from
+    new_scale = new_scale.detach()
     if torch.all(new_scale == 0):
         # A null range does not carry any information, and a null scale cannot be used to quantize
         return scale
@@ -121,7 +123,7 @@ class Calibration(TorchFunctionMode):
             input = input[0]
             if isinstance(input, QBytesTensor):
                 # Just adopt the maximum scale of the input
-                module.input_scale = torch.max(input._scale)
+                module.input_scale = torch.max(input._scale).detach()
             else:
                 # Evaluate the best scale
                 input_scale = absmax_scale(input, module.activation_qtype)
